@@ -10,6 +10,10 @@ from props_base import CHECKS, prop  # noqa: F401
 # ON DELETE / ON UPDATE RESTRICT is not accepted by the parser ("Expected NO ACTION, CASCADE, SET NULL, or SET DEFAULT"),
 # so the restricting behaviour is exercised through NO ACTION (the executors treat both alike)
 FK_MODES = ["cascade", "setnull", "noaction"]
+# (Mode of C -> P, mode of G -> C, whether D -> P restricts): the last two variants have no DIRECT restricting reference to P,
+# the refusal comes from one level further down the cascade
+FK_VARIANTS = [("cascade", "cascade", "TRUE"), ("setnull", "cascade", "TRUE"), ("noaction", "cascade", "TRUE"),
+               ("cascade", "noaction", "FALSE"), ("setnull", "noaction", "FALSE")]
 
 
 def replay(prop_id, path):
@@ -152,11 +156,13 @@ def check_dml(prop_id, tier, seed):
         parts.append({"name": "idx", "scenarios": s3, "configs": cfgs})
         models.append("MC_Idx")
     if prop_id == "C11":
-        for m in FK_MODES:
+        for m, gm, wd_ in FK_VARIANTS:
             s4, st4 = vc.gen_scenarios(prop_id, "MC_Fk", "MC_Fk.cfg", ec.ENGINE_DEPS,
-                                       consts={"MaxDepth": {"quick": 3, "thorough": 4}[tier], "Mode": '"%s"' % m}, workers=1)
+                                       consts={"MaxDepth": {"quick": 3, "thorough": 4}[tier], "Mode": '"%s"' % m, "GMode": '"%s"' % gm, "WithD": wd_},
+                                       workers=1)
             _gen_add(agg, st4)
-            parts.append({"name": "fk_" + m, "scenarios": [{"id": "%s-%s" % (x["id"], m), "steps": x["steps"]} for x in s4], "configs": cfgs})
+            tag = "%s_%s_%s" % (m, gm, wd_[0])
+            parts.append({"name": "fk_" + tag, "scenarios": [{"id": "%s-%s" % (x["id"], tag), "steps": x["steps"]} for x in s4], "configs": cfgs})
         models.append("MC_Fk")
     wd = os.path.join(vc.RUN, "work_%s" % prop_id)
     verdict, events, _ = ec.run_parts(prop_id, parts, wd)
@@ -428,16 +434,18 @@ def check_c12(prop_id, tier, seed):
     depth = {"quick": 4, "thorough": 5}[tier]
     parts, agg = [], {"states_generated": 0, "distinct_states": 0, "mc_ok": True, "exhaustive": True}
     cfgs = [{"name": "default", "args": ["--idx"]}]
-    for m in FK_MODES:
-        scen, stats = vc.gen_scenarios(prop_id, "MC_Fk", "MC_Fk.cfg", ec.ENGINE_DEPS, consts={"MaxDepth": depth, "Mode": '"%s"' % m}, workers=1)
+    for m, gm, wd_ in FK_VARIANTS:
+        scen, stats = vc.gen_scenarios(prop_id, "MC_Fk", "MC_Fk.cfg", ec.ENGINE_DEPS,
+                                       consts={"MaxDepth": depth, "Mode": '"%s"' % m, "GMode": '"%s"' % gm, "WithD": wd_}, workers=1)
         for k in ("states_generated", "distinct_states"):
             agg[k] += stats[k]
         agg["mc_ok"] = agg["mc_ok"] and stats["mc_ok"]
-        scen = [{"id": "%s-%s" % (s["id"], m), "steps": s["steps"]} for s in scen]
-        parts.append({"name": m, "scenarios": scen, "configs": cfgs})
+        tag = "%s_%s_%s" % (m, gm, wd_[0])
+        scen = [{"id": "%s-%s" % (s["id"], tag), "steps": s["steps"]} for s in scen]
+        parts.append({"name": tag, "scenarios": scen, "configs": cfgs})
     wd = os.path.join(vc.RUN, "work_%s" % prop_id)
     verdict, events, _ = ec.run_parts(prop_id, parts, wd)
-    return ec.finish(prop_id, tier, seed, t0, verdict, events, agg, configs=cfgs, extra_cov={"fk_modes": FK_MODES})
+    return ec.finish(prop_id, tier, seed, t0, verdict, events, agg, configs=cfgs, extra_cov={"fk_variants": ["/".join(v) for v in FK_VARIANTS]})
 
 
 # ---------------------------------------------------------------- C04: results independent of parallelism
